@@ -100,7 +100,7 @@ rc::Gen<acase_t> gen_acase()
         {
             acase_t c;
             c.solver = *gen::range<int>(0, 1);
-            gen_spec(c, 3.0);
+            gen_spec(c, 3.0, 30);
             const auto n  = static_cast<size_t>(c.n);
             const int  xs = *gen::range<int>(0, 9);
             if (xs <= 1)
